@@ -86,6 +86,9 @@ struct Ctx { int counter = 0; };
 static thread_local std::string* t_log = nullptr;   // per-call functor log
 static void logf(const char* s) { sp(); if (t_log) *t_log += s; }
 
+// re-entrancy: when t_nested is set, the functor of stmt(word) starts a complete second parse on the SAME parser object in the middle of the first
+static thread_local const char* t_nested = nullptr; static thread_local bool t_in_nested = false;
+static void maybe_nested_parse();
 // parser 1: generated lexer, typed term, error rule
 static int word_value(std::string_view sv) { logf("w"); return int(sv.size()); }
 constexpr char word_pattern[] = "[a-z]+";
@@ -96,7 +99,7 @@ static auto* make_p1(void* mem) {
         stmts() >= [] { logf("0"); return 0; },
         stmts(stmts, stmt, ';') >= [](int a, int b, skip) { logf("S"); return a * 10 + b; },
         stmts(stmts, error, ';') >= [](int a, skip, skip) { logf("E"); return a * 10 + 9; },
-        stmt(word) >= [](const auto& w) { logf("1"); return w.get_value(); },
+        stmt(word) >= [](const auto& w) { logf("1"); maybe_nested_parse(); return w.get_value(); },
         stmt(word, '=', word) >>= [](auto&& ctx, const auto& a, skip, const auto& b) { logf("2"); if constexpr (std::is_same_v<std::decay_t<decltype(ctx)>, Ctx>) ctx.counter++; return a.get_value() + b.get_value(); }));
 }
 using P1 = std::remove_pointer_t<decltype(make_p1(nullptr))>;
@@ -138,6 +141,8 @@ struct Call { const char* name; std::function<Obs()> run; };
 static std::string show(const std::optional<int>& r) { return r ? std::to_string(*r) : std::string("empty"); }
 
 static Held<P1> H1; static Held<P2> H2;
+static std::string nested_obs(const char* in) { std::string log; std::string* outer = t_log; t_log = &log; seam_stream es; std::string s(in); auto r = H1.p->parse(parse_options{}, seam_buffer(s), es); t_log = outer; return show(r) + "|" + log + "|" + es.text; }
+static void maybe_nested_parse() { if (!t_nested || t_in_nested) return; t_in_nested = true; std::string n = nested_obs(t_nested); t_in_nested = false; if (t_log) *t_log += "[" + n + "]"; }
 static std::vector<Call> alphabet() {
     auto p1 = [](const char* in, bool verbose) { return [in, verbose]() { std::string log; t_log = &log; seam_stream es; std::string s(in);
         auto r = H1.p->parse(parse_options{}.set_verbose(verbose), seam_buffer(s), es); t_log = nullptr; return Obs{show(r) + "|" + log + "|" + es.text}; }; };
@@ -156,6 +161,16 @@ static std::vector<Call> alphabet() {
     A.push_back({"p1 string_view default options 'a b;\\nc;'", p1sv("a b;\nc;", true, true)});
     A.push_back({"p1 string_view skip_newline=false 'a;\\nb;'", p1sv("a;\nb;", true, false)});
     A.push_back({"p1 string_buffer skip_whitespace=false 'a;b;'", []() { std::string log; t_log = &log; std::ostringstream es; auto r = H1.p->parse(parse_options{}.set_skip_whitespace(false), string_buffer("a;b; c;"), es); t_log = nullptr; return Obs{show(r) + "|" + log + "|" + es.str()}; }});
+    A.push_back({"p1 re-entrant: 'ab;x;c=d;' whose functor parses 'q=r; z z;y;' on the same object", []() {
+        const char* outer_in = "ab;x;c=d;"; const char* inner_in = "q=r; z z;y;";
+        std::string log; t_log = &log; seam_stream es; std::string s(outer_in);
+        t_nested = inner_in; auto r = H1.p->parse(parse_options{}, seam_buffer(s), es); t_nested = nullptr; t_log = nullptr;
+        std::string got = show(r) + "|" + log + "|" + es.text;
+        // absolute oracle: the inner parse observes what it observes on its own, the outer parse what it observes without the inner one
+        std::string inner = nested_obs(inner_in); std::string plain_log; t_log = &plain_log; seam_stream es2; auto r2 = H1.p->parse(parse_options{}, seam_buffer(s), es2); t_log = nullptr;
+        std::string want_log; for (char c : plain_log) { want_log += c; if (c == '1') want_log += "[" + inner + "]"; }
+        std::string want = show(r2) + "|" + want_log + "|" + es2.text;
+        return Obs{got == want ? got : "REENTRANCY-MISMATCH got '" + got + "' expected '" + want + "'"}; }});
     A.push_back({"p1 write_diag_str", []() { std::ostringstream o; H1.p->write_diag_str(o); return Obs{std::to_string(o.str().size()) + ":" + std::to_string(std::hash<std::string>{}(o.str()))}; }});
     auto p2 = [](const char* in) { return [in]() { std::string log; t_log = &log; seam_stream es; std::string s(in); auto r = H2.p->parse(parse_options{}, seam_buffer(s), es); t_log = nullptr; return Obs{show(r) + "|" + log + "|" + es.text}; }; };
     A.push_back({"p2 accept '12,3,40'", p2("12,3,40")});
@@ -223,6 +238,7 @@ static int run_hist(int depth) {
             if (!WIFEXITED(st) || WEXITSTATUS(st) != 0 || out.find("CHILD-FAULT") != std::string::npos) problem = "a call wrote to the read-only parser object or crashed (status " + std::to_string(st) + ")";
             else if (out.find("IMAGE ") != std::string::npos) problem = out.substr(out.find("IMAGE ") + 6, out.find('\n', out.find("IMAGE ")) - out.find("IMAGE ") - 6);
             else if (out.find("OBJECT ") != std::string::npos) problem = "the parser object was modified";
+            else if (obs.find("REENTRANCY-MISMATCH") != std::string::npos) problem = "a parse started from inside a functor of the same parser object interfered with the outer parse: " + obs;
             else if (d == 1) iso[seq[0]] = obs;
             else if (obs != iso[seq.back()]) problem = "last call observed '" + obs + "' but in isolation it observes '" + iso[seq.back()] + "'";
             if (!problem.empty()) { ++failures; if (first.empty()) first = "history [" + name + "]: " + problem; }
@@ -268,7 +284,8 @@ static int run_sched(int bound, int shard, int nshards, int nthreads) {
     // pairs of calls that share one parser object
     auto idx = [&](const char* prefix) { for (size_t k = 0; k < A.size(); ++k) if (std::string(A[k].name).rfind(prefix, 0) == 0) return k; std::printf("{\"harness_error\": \"no call %s\"}\n", prefix); std::exit(2); };
     size_t acc = idx("p1 accept"), rec = idx("p1 recover"), lexe = idx("p1 lexical"), ctx = idx("p1 context_parse"), frec = idx("p1 failing recovery"), verb = idx("p1 verbose"), diag = idx("p1 write_diag_str"), q1 = idx("p2 accept"), q2 = idx("p2 syntax"), q3 = idx("p2 lexical"), sv1 = idx("p1 string_view default"), sv2 = idx("p1 string_view skip_newline");
-    std::vector<std::vector<size_t>> pairs = {{acc, rec}, {rec, acc}, {rec, lexe}, {ctx, acc}, {acc, acc}, {frec, rec}, {verb, ctx}, {q1, q2}, {q2, q3}, {diag, rec}, {sv1, sv2}, {sv2, rec}};
+    size_t reent = idx("p1 re-entrant");
+    std::vector<std::vector<size_t>> pairs = {{reent, rec}, {acc, rec}, {rec, acc}, {rec, lexe}, {ctx, acc}, {acc, acc}, {frec, rec}, {verb, ctx}, {q1, q2}, {q2, q3}, {diag, rec}, {sv1, sv2}, {sv2, rec}};
     if (nthreads == 3) pairs = {{acc, rec, lexe}, {ctx, acc, verb}, {sv1, sv2, rec}, {q1, q2, q3}, {rec, rec, frec}, {diag, ctx, acc}};
     long execs = 0, failures = 0, points = 0; std::string first; size_t maxpoints = 0; size_t npairs = 0;
     for (size_t pi = 0; pi < pairs.size(); ++pi) {
@@ -282,7 +299,7 @@ static int run_sched(int bound, int shard, int nshards, int nthreads) {
             std::string problem;
             if (r.diverged) { std::printf("{\"harness_error\": \"schedule prefix did not replay\"}\n"); return 2; }
             if (r.fault) problem = "a call wrote to the read-only parser object or crashed";
-            else for (size_t t = 0; t < pr.size() && problem.empty(); ++t) if (r.obs[t] != iso[pr[t]]) problem = "thread " + std::to_string(t) + " (" + A[pr[t]].name + ") observed '" + r.obs[t] + "', in isolation '" + iso[pr[t]] + "'";
+            else for (size_t t = 0; t < pr.size() && problem.empty(); ++t) if (r.obs[t].find("REENTRANCY-MISMATCH") != std::string::npos) problem = "re-entrant parse interfered: " + r.obs[t]; else if (r.obs[t] != iso[pr[t]]) problem = "thread " + std::to_string(t) + " (" + A[pr[t]].name + ") observed '" + r.obs[t] + "', in isolation '" + iso[pr[t]] + "'";
             if (!problem.empty()) { ++failures; if (first.empty()) { std::string names; for (size_t t = 0; t < pr.size(); ++t) names += (t ? " || " : "") + std::string(A[pr[t]].name); first = "calls [" + names + "] non-default choices at points [" + sched + "]: " + problem; } }
             int i = (int)r.taken.size() - 1;
             while (i >= 0 && r.taken[i] + 1 >= r.alts[i]) --i;
